@@ -140,3 +140,9 @@ Proof. exact deep_coord. Qed.
 
 Example C14_sdevice_example : smooth_at (sp_eff ex_q) [1; -2; 1 / 2] /\ off_damage_level ex_q [1; -2; 1 / 2].
 Proof. exact example_storage_hess. Qed.
+
+(* ---- every real exponent ---- *)
+From DK.Proofs Require Import RealExp.
+Theorem C14_kernel_abc_any_real_exponent : forall x a b c xl xh, (xl = xh \/ 0 < abc_q (A:=R) x xl xh a) ->
+  is_derive (fun t => abc_deriv (A:=R) t a b c xl xh) x (abc_hess (A:=R) x a b c xl xh).
+Proof. exact abc_deriv_derive_real. Qed.
